@@ -100,5 +100,40 @@ func scripted(seed int64) []*hist {
 		}
 		out = append(out, h)
 	}
+	// -6 (monitor only): the other way a passed proposal spends what the module account holds for
+	// others — gov MsgDeposit with the module account as depositor into another open proposal.  The
+	// record has no funds behind it; when the target closes, the refund loop pays in address order
+	// and fails if the real depositors come first.  Same root cause and finding as -2.
+	{
+		h := newHist(seed, -6, "govsend")
+		min := h.minFor(false)
+		// the target's real depositor: an account whose address sorts before the module account's,
+		// so that it is refunded first
+		dep := int64(10)
+		for _, id := range h.ids {
+			if id >= 10 && string(h.keys[id].Acc()) < string(h.govAcc) {
+				dep = id
+				break
+			}
+		}
+		// 1: the pledge, targeting the proposal that will be number 2 (a MsgDeposit is not checked against
+		// the store at submission); it ends, and passes, one hour before its target does
+		h.opSubmitGovDeposit(11, 2, new(big.Int).Quo(min, big.NewInt(4)), min)
+		for v := int64(0); v < 3; v++ {
+			h.opVote(1, v, [][2]string{{"1", e18.String()}}, false)
+		}
+		for u := int64(10); u < 14; u++ {
+			h.opVote(1, u, [][2]string{{"1", e18.String()}}, false)
+		}
+		h.opEndBlock(time.Hour)
+		h.opSubmitKind("text", dep, min, false) // 2: the target
+		if p := h.propObs(1); p != nil && p.Status == 2 {
+			h.opEndBlock(time.Duration(p.VEnd-rel(h.c.Time)) * time.Second) // 1 passes: the pledge is recorded
+		}
+		for k := 0; k < 3 && len(h.openIDs(0)) > 0 && !h.halted; k++ {
+			h.opEndBlock(2 * time.Hour) // 2 ends: its depositor is refunded first, then the pledge cannot be
+		}
+		out = append(out, h)
+	}
 	return out
 }
